@@ -12,6 +12,6 @@ for P in "$@"; do
       *) R="harness-error($RC)" ;;
     esac
     FIRST=$(echo "$OUT" | grep "bucket=" | head -1 | cut -c1-160)
-    echo "$(basename "$P") $ID $R $FIRST"
+    N=$(basename "$P"); [ "$N" = patch.diff ] && N=$(basename "$(dirname "$P")"); echo "$N $ID $R $FIRST"
   done
 done
